@@ -30,7 +30,8 @@ fn f64_of<F: Float>(x: F) -> f64 {
 }
 
 fn well_formed(c: &Case) -> bool {
-    let coord_ok = |x: &f64| x.is_finite() && x.abs() <= MAX_ABS_COORD;
+    let bound = if c.single { MAX_ABS_COORD } else { MAX_ABS_COORD_F64 };
+    let coord_ok = |x: &f64| x.is_finite() && x.abs() <= bound;
     c.dim <= MAX_DIM
         && c.points.len() <= MAX_POINTS
         && c.queries.len() <= 256
@@ -78,6 +79,7 @@ fn classify_case(c: &Case, obs: &mut Obs) {
         PointClass::Collinear => "pts_collinear",
         PointClass::Rough => "pts_rough",
         PointClass::AdjacentFloats => "pts_adjacent_floats",
+        PointClass::OffsetCloud => "pts_offset_cloud",
         PointClass::LargeStructured => "pts_large_structured",
         PointClass::Bytes => "pts_bytes",
     });
@@ -483,7 +485,29 @@ fn run_on<F: Float, D: Distance<F>, DT: Data<Elem = F>>(
             mm => mm,
         };
         let qv: Vec<f64> = qp.iter().map(|x| f64_of(*x)).collect();
-        let dref: Vec<f64> = rows64.iter().map(|rv| reference(ref_metric, &qv, rv).0).collect();
+        let refs: Vec<(f64, f64)> = rows64.iter().map(|rv| reference(ref_metric, &qv, rv)).collect();
+        let dref: Vec<f64> = refs.iter().map(|x| x.0).collect();
+        // the reference scan itself is anchored: the crate's rdistance / rdist_to_dist(rdistance) of every stored
+        // point against the harness' own formula (so a self-consistent but wrong distance cannot hide behind it)
+        let slack_f = (FORMULA_EPS + 4.0 * dim as f64) * eps;
+        let tiny = f64_of(F::min_positive_value());
+        for (i, (want_d, want_r)) in refs.iter().enumerate() {
+            let (got_r, got_d) = (rd.get(i).copied().unwrap_or(f64::NAN), d.get(i).copied().unwrap_or(f64::NAN));
+            if (got_r - want_r).abs() > slack_f * want_r.abs().max(got_r.abs()) + tiny {
+                obs.fail(
+                    "rdistance:formula",
+                    format!("query {qi}: rdistance(query, row {i}) = {got_r}, independent formula {want_r} (query {:?}, row {:?})", qv, rows64.get(i)),
+                );
+                break;
+            }
+            if (got_d - want_d).abs() > slack_f * want_d.abs().max(got_d.abs()) + tiny {
+                obs.fail(
+                    "distance:rdist_to_dist-formula",
+                    format!("query {qi}: rdist_to_dist(rdistance(query, row {i})) = {got_d}, independent formula {want_d}"),
+                );
+                break;
+            }
+        }
         let exact: Vec<bool> = rows64
             .iter()
             .zip(rd.iter())
@@ -888,7 +912,8 @@ pub const FORMULA_EPS: f64 = 64.0;
 
 pub fn check_distance(c: &DistCase, obs: &mut Obs) {
     let len = c.a.len();
-    let ok = |v: &Vec<f64>| v.len() == len && v.iter().all(|x| x.is_finite() && x.abs() <= MAX_ABS_COORD);
+    let bound = if c.single { MAX_ABS_COORD } else { MAX_ABS_COORD_F64 };
+    let ok = |v: &Vec<f64>| v.len() == len && v.iter().all(|x| x.is_finite() && x.abs() <= bound);
     let p_ok = match c.metric {
         Metric::Lp(p) => p.is_finite() && (1.0..=8.0).contains(&p),
         _ => true,
